@@ -4,6 +4,15 @@ SPEC = dict(
     props_file='Props/C16.v', props_mod='Props.C16',
     proof_files=['Proofs/Sched.v', 'Drv/ParInit.v'],
     tie_vo=['Proofs/LeafTie2_applyPwmMapping.vo'],
+    # timers of controller.go run on the scaled time base of its (rewritten) sleeps; restorePwmEnabled is bracketed by
+    # markers so that the writes that hand a fan back are not taken for analysis writes
+    rewrites=[('internal/controller/controller.go',
+               [(r'\btime\.After\(', 'util.VerifAfter('),
+                (r'\btime\.NewTimer\(', 'util.VerifNewTimer('),
+                (r'\btime\.AfterFunc\(', 'util.VerifAfterFunc('),
+                (r'(func \(f \*DefaultFanController\) restorePwmEnabled\(\) \{)',
+                 r'\1\n\tutil.VerifMark("restore-begin", f.fan.GetId())\n\tdefer util.VerifMark("restore-end", f.fan.GetId())')],
+               None)],
     extra_driver_files=['startup'],      # the fake-fan environment lives in drv_startup.go
     drivers=[dict(name='parinit', drv_mod='Drv.ParInit', drv_file='Drv/ParInit.v', shard=40,
                   args={'quick': ['n=24'], 'thorough': ['n=300']}, timeout={'quick': 600, 'thorough': 3000})],
